@@ -59,6 +59,8 @@ def gen_cases(tier, seed):
     for cls in ("Signal", "BasebandSignal"):
         for start in ("iso", "none"):
             yield {"kind": "narrow", "cls": cls, "start": start}
+    for rate in ("10 Hz", "3 Hz", "7 Hz", "0.3 Hz", "44.1 kHz", "1.1 MHz", "1 Hz", "2.5 MHz"):
+        yield {"kind": "tails", "rate": rate}
 
 
 _OPS = {}
@@ -79,6 +81,8 @@ def check_case(case):
         return long_case(case, res)
     if case["kind"] == "narrow":
         return narrow_case(case, res)
+    if case["kind"] == "tails":
+        return tails_case(case, res)
     N, ss = case["N"], tuple(case["ss"])
     dtype = np.dtype(case["dtype"])
     is_c = dtype.kind == "c"
@@ -219,7 +223,9 @@ def one_call(res, case, z, zdata, XL, N, is_c, T0, srx, targ, teff, delta, n, fo
             res.hits["Time on start-less signal rejected"] += 1
         return
     exact_form = form in ("int", "float") and not (delta and delta > 0)
-    db = F(0) if exact_form else max(delta, F(1, 10 ** 9))
+    # a count within 1e-8 of a whole sample (for a Time: within its resolution of ~38 ps) denotes that sample: requests that
+    # close to the boundary may be served or refused
+    db = F(0) if exact_form else max(delta, F(1, 10 ** 8) + (F(38, 10 ** 12) * srx if form == "time" else 0))
     in_range = (n >= 0 and teff >= 0 and teff + n <= N)
     on_boundary = (not exact_form) and n >= 0 and (abs(teff) <= db or abs(teff + n - N) <= db) and \
         -db <= teff and teff + n <= N + db
@@ -287,6 +293,43 @@ def one_call(res, case, z, zdata, XL, N, is_c, T0, srx, targ, teff, delta, n, fo
     if not res.ratio("interp err / (16 eps32 + pi delta)", worst, tol):
         res.violation(f"{site}|values", f"t={float(teff):.9g} n={n}: max |out - band-limited interpolation| = {worst:.3g} "
                       f"(budget {tol:.3g}) [{sub}]", case, sub)
+
+
+def tails_case(case, res):
+    """EVERY whole-sample request z[k:k+n] (tails, heads and middles of a 32-sample signal) written as a duration k*dt and as an
+    absolute Time start + k*dt at generic rates: the same samples as the count form (the conversion back to samples carries a
+    rounding error of a few 1e-16, far below the time resolution)."""
+    rate = u.Quantity(case["rate"])
+    L = 32
+    z = pb.Signal(np.arange(1.0, L + 1), sample_rate=rate, start_time=Time("2021-03-04T05:06:07.25", precision=9))
+    zd = np.asarray(z.data)
+    for k in range(0, L + 1):
+        for n in sorted({L - k, 1 if k < L else 0, (L - k) // 2}):
+            if n < 0 or k + n > L:
+                continue
+            forms = (("duration k*dt", k * z.dt), ("duration k/rate", k / rate), ("Time start + k*dt", z.start_time + k * z.dt))
+            for nm, targ in forms:
+                res.transitions += 1
+                res.traces += 1
+                res.state(("tails", case["rate"], k, n, nm))
+                sub = {"rate": case["rate"], "k": k, "n": n, "form": nm}
+                try:
+                    out = pb.snippet(z, targ, n)
+                except Exception as e:
+                    res.violation("snippet|whole sample as duration / Time|raised", f"snippet(z, {nm} with k={k}, {n}) on {L} samples at "
+                                  f"{case['rate']}: {type(e).__name__}: {e} (the count form returns z[{k}:{k + n}])", case, sub)
+                    continue
+                vt = 1e-5 + 8 * 4e-11 * rate.to_value(u.Hz)           # (a Time resolves ~4e-11 s: that many samples of a unit ramp)
+                if len(out) != n or (n and float(np.max(np.abs(np.asarray(out.data) - zd[k:k + n]))) > vt):
+                    res.violation("snippet|whole sample as duration / Time|values", f"{nm}, k={k}, n={n} at {case['rate']}: not z[{k}:{k + n}] "
+                                  f"(len {len(out)})", case, sub)
+                    continue
+                if n and abs((out.start_time - z.start_time).to_value(u.s) - k / rate.to_value(u.Hz)) > 1e-9 + 1e-6 / rate.to_value(u.Hz):
+                    res.violation("snippet|whole sample as duration / Time|start_time", f"{nm}, k={k}", case, sub)
+                    continue
+                res.hits["whole sample written as a duration or a Time"] += 1
+    res.sample({"tails": case["rate"]}, 1)
+    return res
 
 
 def narrow_case(case, res):
@@ -410,7 +453,7 @@ def main(argv=None):
         required_hits=["Time on start-less signal rejected", "out of range rejected", "n = 0",
                        "whole-sample count (bit-exact slice)", "fractional (DFT interpolation)", "long signal, large offset", "request a few nano-samples off a whole sample", "sample_rate assigned before a fractional request", "argument forms",
                        "narrow integer whose t + n does not fit its width", "narrow integer, out of range refused",
-                       "Time given on another scale", "buffer overwritten between requests"],
+                       "Time given on another scale", "buffer overwritten between requests", "whole sample written as a duration or a Time"],
         assumptions=["the instant a request denotes is computed exactly from the form given (count / Quantity / Time); "
                      "resolution allowance 0 / 1e-15 rel / 4 ulp_T*sr samples",
                      "the start_time of an n = 0 result is constrained like any other (start + t/sample_rate)",
